@@ -873,7 +873,7 @@ def p_mp_createInstance(p):
                 raise MOFRepositoryError(
                     msg=_format(
                         "Cannot compile instance of {0!A} because its instance "
-                        "path cannot be created from the instance: {}",
+                        "path cannot be created from the instance: {1}",
                         inst.classname, ve),
                     parser_token=p)
 
